@@ -160,6 +160,11 @@ def main(tier, replay=None):
             m4.insert(ti + 2, {"d": "alias", "name": "ZzBody", "t": {"k": "array", "elem": {"k": "bool"},
                                                                     "cap": {"e": "ref", "path": ["ZZ_BODY"]}, "ext": False}})
             variants.append(("valid-unspaced-expression", b4, "operators written %s" % glue, False))
+            # the end of the file: no final newline, after a definition or after a comment
+            b5 = _copy.deepcopy(base)
+            b5["_eof"] = rng.choice(["no-newline", "comment-no-newline", "two-comments-no-newline",
+                                     "end-of-line-comment-no-newline"])
+            variants.append(("valid-end-of-file", b5, b5["_eof"], False))
             rules = rng.sample(inject.CATALOGUE, per)
             for rule in rules:
                 got = inject.inject(base, rule, rng)
